@@ -324,6 +324,19 @@ Definition run (s : spectrum) (ops : list op) : spectrum := fold_left (fun s o =
 Fixpoint trace (s : spectrum) (ops : list op) : list outcome :=
   match ops with [] => [] | o :: t => let r := exec s o in r :: trace (fst r) t end.
 
+(* ---- the same machine after the proposed fix proposed_fixes/c15-resample-validate-first.patch:
+        resample validates the grid before it assigns the values (everything else unchanged) ---- *)
+Definition resample_fixed (s : spectrum) (g : list Qc) : outcome :=
+  match sample s g with
+  | Err e => (s, Some e)
+  | Ok v => match wave_check g with Err e => (s, Some e) | Ok w => (mkSp w v, None) end
+  end.
+Definition exec_fixed (s : spectrum) (o : op) : outcome :=
+  match o with OResample g => resample_fixed s g | _ => exec s o end.
+Definition run_fixed (s : spectrum) (ops : list op) : spectrum := fold_left (fun s o => fst (exec_fixed s o)) ops s.
+Fixpoint trace_fixed (s : spectrum) (ops : list op) : list outcome :=
+  match ops with [] => [] | o :: t => let r := exec_fixed s o in r :: trace_fixed (fst r) t end.
+
 (* ---- specification-level notions ---- *)
 (* well-formed: positive, strictly increasing grid, one value per wavelength *)
 Fixpoint increasing (w : list Qc) : Prop :=
